@@ -307,7 +307,12 @@ func c17Independence(c c17ICase, rec *vh.Recorder) error {
 				if strings.HasPrefix(r, "hung") {
 					key = "C17:blocked-by-another-sandbox"
 				}
-				return vh.Violf(key, "after a launch that failed for lack of descriptors (%v), launch %d of 4 concurrent ones returned %q, want %q; %s", serr, k, r, w, desc)
+				v := vh.Violf(key, "after a launch that failed for lack of descriptors (%v), launch %d of 4 concurrent ones returned %q, want %q; %s", serr, k, r, w, desc)
+				if strings.HasPrefix(r, "hung") {
+					// nothing can be launched from this process any more: report now, there is nothing to shrink with
+					vh.ReportAndExit(rec, "TestC17Independence", c, v.(*vh.Violation))
+				}
+				return v
 			}
 		}
 	case "thread-with-history":
